@@ -36,6 +36,10 @@ _st = None
 
 
 def _die():
+    if _st is not None and _st.mode == "sigint":
+        # Ctrl-C: unlike a kill the interpreter unwinds the stack (finally / with blocks run) before the process ends
+        _st.crash_at = -1
+        raise KeyboardInterrupt()
     os._exit(137)
 
 
@@ -50,6 +54,8 @@ class _Proxy:
             _die()
         if m == "half":
             self._f.write(bytes(b)[: len(b) // 2])
+            _die()
+        if m == "sigint":
             _die()
         return self._f.write(b)
 
@@ -156,6 +162,8 @@ def run_forked(fn, crash_at, mode, logpath, timeout=120):
     code = os.waitstatus_to_exitcode(status)
     if code == 137:
         return "crashed", events
+    if mode == "sigint" and code == 0 and done is not None:
+        return "crashed", events  # the interrupted command ended by itself (click turns KeyboardInterrupt into Abort)
     if code == 0 and done is not None:
         return ("done", done), events
     return ("error", code), events
